@@ -51,6 +51,18 @@ def table(core, fn_path, scrut_suffix):
         for v in H.pat_variants(a["pat"]):
             dst = H.ctor_of(a["body"])
             if dst is None:
+                # the arm's value is itself a choice (`match helper(x) { Some(f) => f, None => Record(..) }`): the constructor its
+                # explicit tails agree on
+                fe0 = H.final_expr(a["body"])
+                tails = []
+                if H.kind(fe0) == "Match":
+                    tails = [aa["body"] for aa in fe0["arms"]]
+                elif H.kind(fe0) == "If" and fe0.get("else") is not None:
+                    tails = [fe0["then"], fe0["else"]]
+                ds = {H.ctor_of(t_) for t_ in tails} - {None}
+                if len(ds) == 1:
+                    dst = next(iter(ds))
+            if dst is None:
                 # heap-allocated kinds are built by Heap::insert_list / insert_string / insert_record / insert_lambda
                 fe = H.final_expr(a["body"])
                 if H.kind(fe) == "Call" and fe["args"]:
@@ -178,9 +190,9 @@ def run(ctx):
     ctx.rule("C06.R5", "the function-object key probed by from_json and inserted by to_json is one and the same string literal", floor=3)
     keys = []
     for fn in ("blots_core::values::SerializableValue::from_json", "blots_core::values::SerializableValue::to_json"):
-        for n in H.walk(core.hir_fn(fn)["body"]):
-            if H.kind(n) == "Lit" and n["lk"] == "str" and n["v"].startswith("__"):
-                keys.append((H.last(fn), n["v"], H.loc(n)))
+        for v_ in H.str_lits(core.hir_fn(fn)["body"], core):
+            if v_.startswith("__"):
+                keys.append((H.last(fn), v_, H.loc(core.hir_fn(fn)["body"])))
     vals = {k for _, k, _ in keys}
     for fn, k, loc in keys:
         ctx.inst("C06.R5", "%s#key@%s" % (fn, loc.split(":")[-1] if False else len([1 for a in keys[:keys.index((fn, k, loc))] if a[0] == fn])), len(vals) == 1 and k == "__blots_function", "literal %r" % k, loc)
